@@ -227,7 +227,7 @@ func (i *BigInt) CompareFloat(other Float) Value {
 	if other.IsNaN() {
 		return Nil
 	}
-	return SmallInt(i.ToFloat().Cmp(other)).ToValue()
+	return SmallInt(CompareBigIntWithFloat64(i.ToGoBigInt(), float64(other))).ToValue()
 }
 
 // AddVal another value and return an error
@@ -649,7 +649,7 @@ func (i *BigInt) GreaterThanSmallInt(other SmallInt) bool {
 }
 
 func (i *BigInt) GreaterThanFloat(other Float) bool {
-	return i.ToFloat() > other
+	return CompareBigIntWithFloat64(i.ToGoBigInt(), float64(other)) == 1
 }
 
 func (i *BigInt) GreaterThanBigInt(other *BigInt) bool {
@@ -708,7 +708,8 @@ func (i *BigInt) GreaterThanEqualSmallInt(other SmallInt) bool {
 }
 
 func (i *BigInt) GreaterThanEqualFloat(other Float) bool {
-	return i.ToFloat() >= other
+	c := CompareBigIntWithFloat64(i.ToGoBigInt(), float64(other))
+	return c == 1 || c == 0
 }
 
 func (i *BigInt) GreaterThanEqualBigInt(other *BigInt) bool {
@@ -767,7 +768,7 @@ func (i *BigInt) LessThanSmallInt(other SmallInt) bool {
 }
 
 func (i *BigInt) LessThanFloat(other Float) bool {
-	return i.ToFloat() < other
+	return CompareBigIntWithFloat64(i.ToGoBigInt(), float64(other)) == -1
 }
 
 func (i *BigInt) LessThanBigInt(other *BigInt) bool {
@@ -812,7 +813,7 @@ func (i *BigInt) LessThanEqual(other Value) (bool, Value) {
 		oBigInt := NewBigInt(int64(other.AsSmallInt()))
 		return i.Cmp(oBigInt) <= 0, Undefined
 	case FLOAT_FLAG:
-		return i.ToFloat() <= other.AsFloat(), Undefined
+		return i.LessThanEqualFloat(other.AsFloat()), Undefined
 	default:
 		return false, Ref(NewCoerceError(i.Class(), other.Class()))
 	}
@@ -831,7 +832,8 @@ func (i *BigInt) LessThanEqualSmallInt(other SmallInt) bool {
 }
 
 func (i *BigInt) LessThanEqualFloat(other Float) bool {
-	return i.ToFloat() <= other
+	c := CompareBigIntWithFloat64(i.ToGoBigInt(), float64(other))
+	return c == -1 || c == 0
 }
 
 func (i *BigInt) LessThanEqualBigInt(other *BigInt) bool {
@@ -866,10 +868,10 @@ func (i *BigInt) LaxEqual(other Value) bool {
 			oBigInt := NewBigInt(int64(o))
 			return i.Cmp(oBigInt) == 0
 		case UInt64:
-			oBigInt := NewBigInt(int64(o))
+			oBigInt := ToElkBigInt(new(big.Int).SetUint64(uint64(o)))
 			return i.Cmp(oBigInt) == 0
 		case Float64:
-			return i.ToFloat() == Float(o)
+			return CompareBigIntWithFloat64(i.ToGoBigInt(), float64(o)) == 0
 		default:
 			return false
 		}
@@ -880,7 +882,7 @@ func (i *BigInt) LaxEqual(other Value) bool {
 		oBigInt := NewBigInt(int64(other.AsSmallInt()))
 		return i.Cmp(oBigInt) == 0
 	case FLOAT_FLAG:
-		return i.ToFloat() == other.AsFloat()
+		return CompareBigIntWithFloat64(i.ToGoBigInt(), float64(other.AsFloat())) == 0
 	case INT64_FLAG:
 		oBigInt := NewBigInt(int64(other.AsInlineInt64()))
 		return i.Cmp(oBigInt) == 0
@@ -894,10 +896,10 @@ func (i *BigInt) LaxEqual(other Value) bool {
 		oBigInt := NewBigInt(int64(other.AsInt8()))
 		return i.Cmp(oBigInt) == 0
 	case UINT_FLAG:
-		oBigInt := NewBigInt(int64(other.AsUInt()))
+		oBigInt := ToElkBigInt(new(big.Int).SetUint64(uint64(other.AsUInt())))
 		return i.Cmp(oBigInt) == 0
 	case UINT64_FLAG:
-		oBigInt := NewBigInt(int64(other.AsInlineUInt64()))
+		oBigInt := ToElkBigInt(new(big.Int).SetUint64(uint64(other.AsInlineUInt64())))
 		return i.Cmp(oBigInt) == 0
 	case UINT32_FLAG:
 		oBigInt := NewBigInt(int64(other.AsUInt32()))
@@ -909,9 +911,9 @@ func (i *BigInt) LaxEqual(other Value) bool {
 		oBigInt := NewBigInt(int64(other.AsUInt8()))
 		return i.Cmp(oBigInt) == 0
 	case FLOAT64_FLAG:
-		return i.ToFloat() == Float(other.AsInlineFloat64())
+		return CompareBigIntWithFloat64(i.ToGoBigInt(), float64(other.AsInlineFloat64())) == 0
 	case FLOAT32_FLAG:
-		return i.ToFloat() == Float(other.AsFloat32())
+		return CompareBigIntWithFloat64(i.ToGoBigInt(), float64(other.AsFloat32())) == 0
 	default:
 		return false
 	}
